@@ -165,7 +165,7 @@ def run_case(case):
         # snapshot before draining, then drain to quiescence
         mid = snapshot(actor)
         n_mid = len(log)
-        for _ in range(200):
+        for _ in range(200 + 50 * nbad[0]):       # every malformed request costs one RESTART_DELAY (2 s) of virtual time
             for _ in range(6):
                 await asyncio.sleep(0)
             consumed = sum(1 for e in log if e[0] == "A" or (e[0] == "R" and e[1] == "bad"))
